@@ -1,0 +1,49 @@
+//! Socket seam: thin shells over a backend installed by the simulator.
+use futures::future::BoxFuture;
+use std::{cell::RefCell, io, net::SocketAddr, pin::Pin, sync::Arc, task::{Context, Poll}};
+use tokio::io::{AsyncRead, AsyncWrite, ReadBuf};
+
+pub trait StreamBackend: AsyncRead + AsyncWrite + Send + Unpin {}
+impl<T: AsyncRead + AsyncWrite + Send + Unpin> StreamBackend for T {}
+
+pub trait ListenerBackend: Send {
+    fn local_addr(&self) -> SocketAddr;
+    fn poll_accept(&mut self, cx: &mut Context<'_>) -> Poll<io::Result<(Box<dyn StreamBackend>, SocketAddr)>>;
+}
+
+pub trait NetBackend: Send + Sync {
+    fn bind(&self, addr: SocketAddr) -> io::Result<Box<dyn ListenerBackend>>;
+    fn connect(&self, local: Option<SocketAddr>, remote: SocketAddr) -> BoxFuture<'static, io::Result<Box<dyn StreamBackend>>>;
+}
+
+thread_local! { static BACKEND: RefCell<Option<Arc<dyn NetBackend>>> = const { RefCell::new(None) }; }
+
+pub fn install(backend: Option<Arc<dyn NetBackend>>) { BACKEND.with(|b| *b.borrow_mut() = backend); }
+fn backend() -> io::Result<Arc<dyn NetBackend>> {
+    BACKEND.with(|b| b.borrow().clone()).ok_or_else(|| io::Error::new(io::ErrorKind::Other, "no sim net installed"))
+}
+
+pub struct TcpStream(Box<dyn StreamBackend>);
+impl TcpStream {
+    pub async fn connect_from(local: Option<SocketAddr>, remote: SocketAddr) -> io::Result<Self> {
+        let fut = backend()?.connect(local, remote);
+        Ok(TcpStream(fut.await?))
+    }
+}
+impl AsyncRead for TcpStream {
+    fn poll_read(mut self: Pin<&mut Self>, cx: &mut Context<'_>, buf: &mut ReadBuf<'_>) -> Poll<io::Result<()>> { Pin::new(&mut self.0).poll_read(cx, buf) }
+}
+impl AsyncWrite for TcpStream {
+    fn poll_write(mut self: Pin<&mut Self>, cx: &mut Context<'_>, buf: &[u8]) -> Poll<io::Result<usize>> { Pin::new(&mut self.0).poll_write(cx, buf) }
+    fn poll_flush(mut self: Pin<&mut Self>, cx: &mut Context<'_>) -> Poll<io::Result<()>> { Pin::new(&mut self.0).poll_flush(cx) }
+    fn poll_shutdown(mut self: Pin<&mut Self>, cx: &mut Context<'_>) -> Poll<io::Result<()>> { Pin::new(&mut self.0).poll_shutdown(cx) }
+}
+
+pub struct TcpListener(Box<dyn ListenerBackend>);
+impl TcpListener {
+    pub fn bind(addr: SocketAddr) -> io::Result<Self> { Ok(TcpListener(backend()?.bind(addr)?)) }
+    pub fn local_addr(&self) -> io::Result<SocketAddr> { Ok(self.0.local_addr()) }
+    pub fn poll_accept(&mut self, cx: &mut Context<'_>) -> Poll<io::Result<(TcpStream, SocketAddr)>> {
+        self.0.poll_accept(cx).map(|r| r.map(|(s, a)| (TcpStream(s), a)))
+    }
+}
